@@ -235,3 +235,57 @@ CHECKS = {
         "check": restricted_check,
         "bound": "products of 1-2 ERI / Fock objects, restricted reference with spin free Coulomb integrals, expand_eri on/off"},
 }
+
+
+# --- spin blocks that are not reported as allowed vanish -----------------------------------------------
+class SpinConservingHF(Model):
+    """2 occupied + 2 virtual spatial orbitals; antisymmetrised integrals that vanish on non spin
+    conserving blocks, non vanishing orbital energy denominators"""
+
+    def __init__(self, seed):
+        super().__init__(orbital_space(2, 2), seed=seed, braket={"V": 1, "f": 1}, spin_conserving={"V", "f"})
+
+    def nonsym(self, name, idx):
+        if name == "e":
+            o = idx[0]
+            return Fraction((-20 if o[0] == "o" else 20) + 3 * o[1])     # spin independent
+        return super().nonsym(name, idx)
+
+
+def block_cases(tier, seed):
+    names = ["t2_1", "t2sq", "p0_2_oo", "p0_2_vv", "t2eri_1", "t2eri_2"]
+    if tier != "quick":
+        names += ["t1_2", "t2eri_3", "t2eri_4", "t2eri_5", "t2eri_6", "t2eri_7", "t2eri_A", "t2eri_B"]
+    for n in names:
+        yield {"itmd": n}
+
+
+def block_check(case):
+    from adcgen.intermediates import Intermediates
+    itmd = Intermediates().available[case["itmd"]]
+    idx = itmd.default_idx
+    targets = get_symbols(idx)
+    allowed = set(itmd.allowed_spin_blocks)
+    full = itmd.expand_itmd(indices="".join(idx), fully_expand=True).make_real().expand()
+    model = SpinConservingHF(4)
+    seen_allowed_nonzero = set()
+    for asg in all_assignments(targets, model.orbs):
+        block = "".join(asg[s][2] for s in targets)
+        v = evaluate(full.sympy, asg, model)
+        if block not in allowed:
+            if v != 0:
+                return False, (f"{case['itmd']}: the spin block {block} (indices {idx}) is not reported as allowed "
+                               f"{sorted(allowed)} but the definition has the value {v} at "
+                               f"{dict((str(k), o) for k, o in asg.items())}")
+        elif v != 0:
+            seen_allowed_nonzero.add(block)
+    if not seen_allowed_nonzero:
+        return False, f"{case['itmd']}: the model does not exercise any block (all values vanish)"
+    return True, ""
+
+
+CHECKS["allowed_spin_blocks.complete"] = {
+    "function": "adcgen.intermediates:RegisteredIntermediate.allowed_spin_blocks",
+    "cases": block_cases, "check": block_check,
+    "bound": "registered intermediates t2_1, t2sq, p0_2_oo/vv, t2eri_1/2 (thorough: + t1_2, t2eri_3..7, A, B): definition evaluated on all spin orbital assignments of 2 occ + 2 virt spatial orbitals with spin conserving integrals; every block that is not reported vanishes",
+}
